@@ -1,13 +1,13 @@
 #!/usr/bin/env python3
 """Run every kept seeded change against its property's check and record the
-outcome in seeded/<id>/meta.json (caught_by). usage: tools/seedrun.py [Cnn ...]"""
+outcome in seeded/<id>/meta.json (caught_by). usage: tools/seedrun.py [Cnn | Cnn-X ...]"""
 import json, os, re, subprocess, sys, glob
 V = os.path.dirname(os.path.dirname(os.path.abspath(__file__)))
 want = set(sys.argv[1:])
 checks = {c["property_id"] for c in json.load(open(os.path.join(V, "MANIFEST.json")))["checks"]}
 for d in sorted(glob.glob(os.path.join(V, "seeded", "C*-*"))):
     sid = os.path.basename(d); prop = sid.split("-")[0]
-    if want and prop not in want: continue
+    if want and prop not in want and sid not in want: continue
     mp = os.path.join(d, "meta.json"); meta = json.load(open(mp))
     if prop not in checks:
         meta["caught_by"] = "no check registered for " + prop
